@@ -151,6 +151,15 @@ def f1(arg, {inner}): return arg
 def f2(arg, *args, **kwargs): return f1(arg, *args, **kwargs)
 w1 = wrappers.Combination(f1, f2)
 ''', ['w1']),
+    _mk('as_forged_class', '''
+class K(object):
+    __signature__ = specifiers.as_forged
+    def __init__(self, p=1, *rest): pass
+    def inner(self, {inner}): return 'inner'
+    @specifiers.forwards_to_method('inner', 1)
+    def __call__(self, {outer}*args, **kwargs): return self.inner(1, *args, **kwargs)
+obj = K()
+''', ['obj', 'K']),
     _mk('partial_wraps', '''
 def inner({inner}): return 'inner'
 @functools.wraps(inner)
